@@ -230,6 +230,32 @@ pub fn byte_faults(bytes: &[u8], rng: &mut Rng, budget_random: usize, thin: usiz
             from = e;
         }
     }
+    // 7c. the first / last byte of every data range of the position table -> a non-ASCII byte
+    // or CR (text parsers that peek one character at a section edge)
+    if let Some(p) = find(bytes, b"[POSITION]\n") {
+        let txt = String::from_utf8_lossy(&bytes[p..d.min(bytes.len())]).to_string();
+        let toks: Vec<&str> = txt.split(|c: char| !(c.is_ascii_digit() || c == '-')).filter(|t| t.contains('-')).collect();
+        for (ri, tok) in toks.iter().enumerate() {
+            let mut it = tok.splitn(2, '-');
+            let (Some(a), Some(b)) = (it.next().and_then(|x| x.parse::<usize>().ok()), it.next().and_then(|x| x.parse::<usize>().ok())) else { continue };
+            for (what, o) in [("first", d.saturating_add(a)), ("last", d.saturating_add(b))] {
+                if o >= bytes.len() {
+                    continue;
+                }
+                for (bi, nb) in [0xFFu8, 0x80, 0xC3, b'\r'].into_iter().enumerate() {
+                    if thin > 1 && (ri * 8 + bi) % thin != 0 {
+                        continue;
+                    }
+                    if bytes[o] == nb {
+                        continue;
+                    }
+                    let mut v = bytes.to_vec();
+                    v[o] = nb;
+                    out.push(Fault { class: "range-edge-byte", section: "DATA".into(), descr: format!("{} byte of data range {} ({}) -> 0x{:02x}", what, ri, tok, nb), bytes: v });
+                }
+            }
+        }
+    }
     // 6b. quotes: every quote of the header removed / replaced; an opening quote put in front of every value
     {
         let mut qi = 0;
